@@ -256,6 +256,8 @@ func (e StdEng) reduce(
 
 		retVal = a
 		dimsReduced := 0
+		// the axes are sorted in a copy: the slice belongs to the caller
+		along = append([]int(nil), along...)
 		sort.Slice(along, func(i, j int) bool { return along[i] < along[j] })
 
 		for _, axis := range along {
